@@ -1,13 +1,21 @@
 """Regenerate gen/ from $OMEGA_REPO and compile a GenProofs/Properties file
-with everything it depends on (developer helper).  usage: gp.py <relpath>"""
+with everything it depends on (developer helper).
+usage: gp.py [--l4] <relpath>...   (--l4: rebuild theories/L4 first)"""
+import glob
 import sys
 sys.path.insert(0, '/verif/tools')
 from vlib import core, gen_games
 ctx = core.Ctx('DEV', 'quick', 0)
+args = sys.argv[1:]
 try:
     with ctx.coq_lock():
-        gen_games.ensure_gr1(ctx)
-        for f in sys.argv[1:]:
+        if args and args[0] == '--l4':
+            args = args[1:]
+            ctx.build_theories([f[len(core.COQ) + 1:] + 'o' for f in sorted(
+                glob.glob(core.COQ + '/theories/L4/*.v')
+                + glob.glob(core.COQ + '/theories/L4Enum/*.v'))])
+        gen_games.ensure_transducers(ctx)
+        for f in args:
             ctx.prove_with_deps(f)
     print('ok', len(ctx.obligations), 'obligations')
 except core.Broken as b:
